@@ -60,7 +60,7 @@ from pytato.array import (
     _entries_are_identical,
 )
 from pytato.equality import EqualityComparer
-from pytato.tags import ImplStored
+from pytato.tags import ImplementationStrategy, ImplStored
 from pytato.transform import (
     ArrayOrNames,
     ArrayOrNamesTc,
@@ -210,7 +210,10 @@ def _materialize_if_mpms(expr: Array,
         else:
             nsuccessors += 1
 
-    if nsuccessors > 1 and len(materialized_predecessors) > 1:
+    if (nsuccessors > 1 and len(materialized_predecessors) > 1
+            # respect an implementation strategy the user already chose
+            and not (expr.tags_of_type(ImplementationStrategy)
+                     - expr.tags_of_type(ImplStored))):
         new_expr = expr.tagged(ImplStored())
         return MPMSMaterializerAccumulator(frozenset([new_expr]), new_expr)
     else:
